@@ -5,8 +5,14 @@ CHECK = {
     "harness": ["crdt/zz_verif_c38.go"],
     "entries": [
         {"fn": P + "vC38_gcounter", "cases": {"slots": [6]}},
+        {"fn": P + "vC38_pncounter", "cases": {"slots": [6]}},
+        {"fn": P + "vC38_flag", "cases": {"slots": [6]}},
+        {"fn": P + "vC38_lww", "cases": {"slots": [6]}},
+        {"fn": P + "vC38_lww_anyclock", "cases": {"slots": [6]}},
+        {"fn": P + "vC38_mvregister", "cases": {"slots": [6]}},
+        {"fn": P + "vC38_orset", "cases": {"slots": [6]}},
     ],
-    "opts": {"unwind": 10},
+    "opts": {"unwind": 10, "feas_from_iter": 100, "map_range": "per_entry", "map_dedup": True},
     "explanation": "",
     "bounds": {},
 }
